@@ -368,6 +368,8 @@ class P:
             return ("const", "gen_DEFAULTALIGN")
         if len(segs) == 1:
             return ("var", segs[0])
+        if path == "T::BITS":
+            return ("var", "T_BITS")          # word size of the integer type: an extra parameter `T_BITS` of the Gallina function
         self.fail(f"path `{path}` used as a value")
 
 
@@ -514,6 +516,9 @@ CORE = [
     ("glwe_tensor_key_compressed_encrypt_sk_tmp_bytes", CO + "encryption/compressed/glwe_tensor_key.rs", "GLWETensorKeyCompressedEncryptSkDefault<BE> for Module", "glwe_tensor_key_compressed_encrypt_sk_tmp_bytes", MOD),
     ("gglwe_to_ggsw_key_compressed_encrypt_sk_tmp_bytes", CO + "encryption/compressed/gglwe_to_ggsw_key.rs", "GGLWEToGGSWKeyCompressedEncryptSkDefault<BE> for Module", "gglwe_to_ggsw_key_encrypt_sk_tmp_bytes", MOD),
     ("cmux_tmp_bytes", "poulpy-bin-fhe/src/bdd_arithmetic/eval.rs", "trait Cmux", "cmux_tmp_bytes", MOD),
+    ("execute_bdd_circuit_tmp_bytes", "poulpy-bin-fhe/src/bdd_arithmetic/eval.rs", "ExecuteBDDCircuit<BE> for Module", "execute_bdd_circuit_tmp_bytes", MOD),
+    ("execute_bdd_circuit_2w_to_1w_tmp_bytes", "poulpy-bin-fhe/src/bdd_arithmetic/bdd_2w_to_1w.rs", "trait ExecuteBDDCircuit2WTo1W", "execute_bdd_circuit_2w_to_1w_tmp_bytes", MOD),
+    ("execute_bdd_circuit_2w_to_1w_multi_thread_tmp_bytes", "poulpy-bin-fhe/src/bdd_arithmetic/bdd_2w_to_1w.rs", "trait ExecuteBDDCircuit2WTo1W", "execute_bdd_circuit_2w_to_1w_multi_thread_tmp_bytes", MOD),
     ("normalize_input_limb_bound", CO + "operations/glwe.rs", None, "normalize_input_limb_bound", FREE),
     ("normalize_input_limb_bound_worst_case", CO + "operations/glwe.rs", None, "normalize_input_limb_bound_worst_case", FREE),
     ("glwe_mul_plain_tmp_bytes", CO + "operations/glwe.rs", "GLWEMulPlainDefault<BE> for Module", "glwe_mul_plain_tmp_bytes", MOD),
@@ -568,6 +573,8 @@ CALLS = {
     "normalize_input_limb_bound": ("normalize_input_limb_bound", FREE),
     "normalize_input_limb_bound_worst_case": ("normalize_input_limb_bound_worst_case", FREE),
     "self.bytes_of_cnv_pvec_left": ("hal_bytes_of_cnv_pvec_left", MOD), "self.bytes_of_cnv_pvec_right": ("hal_bytes_of_cnv_pvec_right", MOD),
+    "self.cmux_tmp_bytes": ("cmux_tmp_bytes", MOD), "self.execute_bdd_circuit_tmp_bytes": ("execute_bdd_circuit_tmp_bytes", MOD),
+    "self.glwe_pack_tmp_bytes": ("glwe_pack_tmp_bytes", MOD),
     "self.ggsw_expand_rows_tmp_bytes_default": ("ggsw_expand_rows_tmp_bytes", MOD),
     "self.ggsw_expand_rows_tmp_bytes": ("ggsw_expand_rows_tmp_bytes", MOD),
     "GLWE::<Vec<u8>>::bytes_of": ("GLWE_bytes_of", FREE),
@@ -612,7 +619,7 @@ ALIASES = [
 
 INFO_METHODS = {"n": "i_n", "base2k": "i_base2k", "size": "i_size", "max_k": "i_max_k", "rank": "i_rank",
                 "rank_in": "i_rank_in", "rank_out": "i_rank", "dnum": "i_dnum", "dsize": "i_dsize"}
-IDENT_METHODS = {"into", "as_usize", "as_u32", "glwe_layout", "gglwe_layout", "lwe_layout"}
+IDENT_METHODS = {"into", "as_usize", "as_u32", "glwe_layout", "gglwe_layout", "lwe_layout", "max_state_size", "automorphism_key_infos"}
 SIZES = {"i64": 8, "u64": 8, "f64": 8, "i128": 16, "u128": 16, "u32": 4, "i32": 4, "u8": 1, "usize": 8}
 
 
@@ -778,6 +785,8 @@ def parse_params(sig, where):
         parts.append(cur)
     params = []
     gen = dict(re.findall(r"(\w+)\s*:\s*(\w+Infos)", sig))   # generic params bounded by *Infos in `where`/<>
+    if re.search(r"\bT\s*:\s*UnsignedInteger\b", sig):
+        params.append(("T_BITS", "Z"))
     for p_ in parts:
         p_ = p_.strip()
         if p_ in ("&self", "self"):
@@ -792,6 +801,10 @@ def parse_params(sig, where):
             params.append((name, "infos"))
         elif ty in ("Degree", "Base2K", "TorusPrecision", "Rank", "Dnum", "Dsize"):
             params.append((name, "Z"))
+        elif re.fullmatch(r"&[A-Z]\w*", ty) and re.search(r"\b" + ty[1:] + r"\s*:\s*GetBitCircuitInfo\b", sig):
+            params.append((name, "Z"))          # a BDD circuit enters the size queries only through max_state_size()
+        elif re.fullmatch(r"&[A-Z]\w*", ty) and re.search(r"\b" + ty[1:] + r"\s*:\s*GLWEAutomorphismKeyHelper\b", sig):
+            params.append((name, "infos"))      # a key helper enters only through automorphism_key_infos()
         else:
             raise TranslateError(f"{where}: parameter `{p_}` has a type outside the supported subset")
     return params
